@@ -39,7 +39,9 @@ func (s BatchedPrivateTokenRequestState) FinalizeTokens(tokenResponseEnc []byte)
 	reader := cryptobyte.String(tokenResponseEnc)
 
 	l, offset := quicwire.ConsumeVarint(tokenResponseEnc)
-	reader.Skip(offset)
+	if offset < 0 || !reader.Skip(offset) || l > uint64(len(reader)) {
+		return nil, fmt.Errorf("invalid batch token response list encoding")
+	}
 
 	encodedElements := make([]byte, l)
 	if !reader.ReadBytes(&encodedElements, len(encodedElements)) {
